@@ -25,7 +25,11 @@ THEOREMS = ['Tbox.C02.C02_callbacks_legit', 'Tbox.C02.C02_never_early', 'Tbox.C0
             'Tbox.C02.Wide.C02_wide_add_refines', 'Tbox.C02.Wide.C02_wide_delete_exact', 'Tbox.C02.Wide.C02_wide_delete_counterexample',
             'Tbox.C02.Wide.C02_wide_serve_refines', 'Tbox.C02.Wide.C02_wide_leave_refines',
             'Tbox.C02.Heap.IsHeap.front_le', 'Tbox.C02.Heap.add_spec', 'Tbox.C02.Heap.popFront_spec', 'Tbox.C02.Heap.repush_spec',
-            'Tbox.C02.Heap.delete_spec']
+            'Tbox.C02.Heap.delete_spec',
+            # round 4: whole-execution simulation wide machine -> abstract model; the loop's exit timer
+            'Tbox.C02.C02_wide_exec_simulates', 'Tbox.C02.C02_wide_exec_same_trace', 'Tbox.C02.C02_wide_exec_callbacks_legit',
+            'Tbox.C02.C02_wide_exec_deadlines_exact', 'Tbox.C02.C02_wide_exec_no_skip', 'Tbox.C02.Wide.sim_init', 'Tbox.C02.Wide.sim_step',
+            'Tbox.C02.Wide.sim_exec', 'Tbox.C02.C02_exit_arms_fresh', 'Tbox.C02.C02_exit_zero_disarms', 'Tbox.C02.C02_exit_not_early']
 SOURCES = vlib.EVENT_SOURCES + vlib.BASE_SOURCES + ['modules/eventx/timer_pool.cpp']
 FLAVOUR = 'asan'
 LIBS = ['-ldl']
@@ -37,17 +41,24 @@ TRUSTED = ['model lean/TboxModel/C02/Model.lean hand-written from common_loop_ti
            'std::push_heap/pop_heap/make_heap (libstdc++) meet the contract the C++ standard gives them (structure Heap.HeapAlgs: result is a heap / '
            'a permutation / pop_heap puts the old front last); everything else about the heap - multiset preserved by add/pop/re-push/delete, front '
            'minimal, deleteTimer removes exactly the addressed record - is proved for every conforming triple (Heap.lean, WideProps.lean)',
-           'Wide.lean (machine widths: UInt64 clock/deadline/interval, Int64 milliseconds::rep and getWaitTime, int delay_ms, epoll INT_MAX clamp, select '
-           'timeval) is tied to the abstract model by per-primitive refinement theorems (C02_wide_add_refines / serve_refines / leave_refines / '
-           'delete_exact), not by a whole-execution simulation; wide cases (flat TimerEvents, any signed interval) are accepted by an acceptor that '
-           'runs Wide.lean on the sorted-vector instance of the heap contract and follows the real heap among records of equal deadline (bringFront)',
+           'Wide.lean / WideExec.lean (machine widths: UInt64 clock/deadline/interval, Int64 milliseconds::rep and getWaitTime, int delay_ms, epoll INT_MAX '
+           'clamp, select timeval; TimerEventImpl, TimerPool and callback scripts on the explicit heap) is tied to the abstract model by the '
+           'whole-execution simulation theorem C02_wide_exec_simulates (every execution of the wide machine, on any conforming heap library, is an '
+           'execution of the abstract model by the same op list with the same callback log) AND on every run: the driver runs both layers in lock-step '
+           'on every case and compares their states after every op (reject M: on disagreement); wide cases with a negative interval are outside the '
+           'abstract model and run on the wide machine alone (sorted-vector instance of the heap contract, following the real heap among records of '
+           'equal deadline: bringFront)',
+           'the loop exit timer is modelled as ONE TimerEvent object (the slot) that exitLoop(w) re-initialises and enables (w = 0: disables; '
+           'the C++ code deletes the old TimerEventImpl and creates a new one - same effect on heap and cabinet); its callback stopLoop() is internal: the '
+           'harness observes that runLoop() returned (a runNext function that is run without another call of the engine wait is being run by the '
+           'exit drain), prints P loop-exit and runs the same loop object again; among records of equal deadline the acceptor tries both orders of the '
+           'silent exit callback',
            'virtual monotonic and system clocks by clock_gettime interposition in the harness (harness/vtime.h); the steady clock never reads negative; '
            'idle passes: epoll_wait/select interposed in the harness report the timeout they are given, advance the virtual clock and return 0',
            'TimerPool cabinet rendered by its contract as repaired (C08_cab_lookup, C08 package): token = serial of the TimerEvent, never reissued; '
            'the deferred deletes of TimerPool (run()/runNext([timer]{delete timer})) are modelled as immediate: between free(token) and the delete '
            'nothing can reach the disabled object',
-           'exitLoop(wait) builds its exit timer through the same newTimerEvent/initialize(kOneshot)/enable path as any TimerEvent; it is not '
-           'driven separately by the harness (its callback is internal, the order in which it fires is not observable)']
+           'negative exitLoop waits and exitLoop from a thread other than the loop thread are not driven']
 ASSUMPTIONS = ['interval >= 1 ms for the property theorems (the property quantifies over d >= 1; C02_pass_endless_counterexample: interval 0 persistent never '
                'leaves the pass; C02_wide_negative_interval / C02_wide_zero_interval state what the code does with d <= 0, tied by wide cases)',
                'a timer object is not destroyed from inside its own callback (TimerPool defers that delete itself)',
@@ -55,7 +66,10 @@ ASSUMPTIONS = ['interval >= 1 ms for the property theorems (the property quantif
                'then no 64-bit deadline wraps (C02_wide_deadline_exact, C02_wide_rearm_exact; C02_wide_wrap_counterexample beyond); doAt in the '
                'abstract model only for time points 1..100000 ms ahead of the system clock (a time point in the past is doAfter(negative): wide cases)',
                'every live deadline is > 0 (proved from now >= 1 and non-negative intervals: WInv; C02_wide_delete_counterexample for a live deadline 0)',
-               'TimerPool theorems doAfter_once/doEvery_nth/all_timers: timers are used only through the TimerPool (puSteps, decidable)']
+               'TimerPool theorems doAfter_once/doEvery_nth/all_timers: timers are used only through the TimerPool (puSteps, decidable)',
+               'simulation theorems: every millisecond count of the op list is a non-negative long (< 2^63, bndSteps, decidable); the wide machine refuses '
+               'to advance the clock to 2^63 ms; TimerPool doAfter/doEvery/doAt refuse an empty std::function at the call (tied: pnull), the pool '
+               'destructor is cleanup() (tied: pdestroy, under ASan)']
 RULE = ('scripts of timer objects (callback bodies = lists of init/enable/disable/destroy/newTimerEvent on any object, nested scripts for timers '
         'created inside callbacks) + API ops + clock advances with one loop pass each, on the real epoll/select loop under a virtual clock; '
         'TimerPool cases: doAfter/doEvery/doAt/cancel/cleanup from outside and inside callbacks (re-arming, self-cancel, cleanup inside a '
@@ -65,7 +79,13 @@ RULE = ('scripts of timer objects (callback bodies = lists of init/enable/disabl
         'heap front; passes with only it pending woken by a next-function or out of the engine wait; clock jumps to R ms / 1 ms before / onto the '
         'deadline; persistent ones fire twice), idle passes (the timeout handed to epoll_wait / select is observed: never for ever, never past the '
         'deadline, valid timeval at property level, exact value at model level), wide cases (any signed interval incl. negative and zero); also '
-        'non-trivial: an idle pass with a timer pending, a callback in a wide case, an interval in a boundary class; distinct = distinct op text')
+        'non-trivial: an idle pass with a timer pending, a callback in a wide case, an interval in a boundary class; distinct = distinct op text; '
+        'round 4: exit-timer cases (exitLoop(w) from a deferred function / from outside the run / from inside timer callbacks, twice with different '
+        'waits, waits 0, 1, equal to and one off the other intervals, 2^31+-2, 2^32+-2, 25..50 days; the loop leaves runLoop exactly in the pass that '
+        'reaches the deadline and is run again), state-derived follow-ups (same interval and mode again while enabled, enable twice, re-enable at the '
+        'cached deadline, doEvery with interval = elapsed time, cancel of the next / the just-freed token, removal of the due heap front from a '
+        'callback), TimerPool with empty callbacks and destruction with pending timers; also non-trivial: the loop left runLoop, a pool destroyed '
+        'with pending timers; both model layers run in lock-step on every case (tag lockstep)')
 HARNESS_ENV = None
 
 
@@ -143,7 +163,9 @@ def gen_pool_case(rng, nops):
             d = rng.choice([-50, -7, -1, 1, 4, 60]); ops.append('wall %d' % d); wall += d
         elif r < 0.8:
             d = rng.choice([0, 1, 1, 2, 3, 5, 7, 10, 21]); ops.append('%s %d' % ('idle' if rng.random() < 0.15 else 'adv', d)); wall += d
-        elif r < 0.95: ops.append('pcancel %d' % rng.randrange(made + 2))
+        elif r < 0.93: ops.append('pcancel %d' % rng.randrange(made + 2))
+        elif r < 0.96: ops.append('pnull %s %d' % (rng.choice('aet'), rng.choice(ivs)))      # empty std::function: refused, nothing created
+        elif r < 0.98: ops.append('pdestroy')                                               # ~TimerPool with pending timers, fresh pool
         else: ops.append('pcleanup')
     return ops
 
@@ -241,6 +263,95 @@ def gen_wide_case(rng):
     return ops
 
 
+def gen_exit_case(rng):
+    """the loop's own exit timer (CommonLoop::exitLoop(wait)): object 0 is the slot; exitLoop from a deferred function (`xl`), from
+    outside the run (`xlo`), from inside timer callbacks (`q<w>`), twice with different waits, with waits equal to / one off the
+    intervals of the other timers (ties in the heap: the acceptor tries both orders), the loop re-run after every exit"""
+    ops = ['engine ' + rng.choice(['epoll', 'select']), 'xslot']
+    n = rng.choice([1, 2, 3, 4])
+    ivs = rng.sample([1, 2, 3, 5, 7, 10], rng.choice([1, 2, 3]))
+    ws = [0, 0, 1, 2] + ivs + [v + 1 for v in ivs] + [2 * v for v in ivs]
+
+    def act(self):
+        k = 1 + rng.randrange(n)
+        r = rng.random()
+        if r < 0.35: return 'q%d' % rng.choice(ws)
+        if r < 0.55: return 'e%d' % k
+        if r < 0.75: return 'd%d' % k
+        if r < 0.9: return 'i%d:%d:%s' % (k, rng.choice(ivs), rng.choice('op'))
+        return 'x%d' % k if k != self else 'd%d' % k
+
+    for j in range(1, n + 1):
+        ops.append('new ' + (','.join(act(j) for _ in range(rng.choice([0, 0, 1, 1, 2]))) or '-'))
+    for j in range(1, n + 1):
+        ops.append('init %d %d %s' % (j, rng.choice(ivs), rng.choice('oppp')))
+        if rng.random() < 0.8: ops.append('en %d' % j)
+    for _ in range(rng.choice([6, 12, 20])):
+        r = rng.random()
+        j = 1 + rng.randrange(n)
+        if r < 0.25: ops.append('xl %d' % rng.choice(ws))
+        elif r < 0.30: ops.append('xlo %d' % rng.choice(ws))
+        elif r < 0.70: ops.append('%s %d' % (rng.choice(['adv', 'adv', 'adv', 'idle', 'idlex']), rng.choice([0, 1, 1, 2, 3, 5, 7, 10, 21])))
+        elif r < 0.80: ops.append('en %d' % j)
+        elif r < 0.88: ops.append('dis %d' % j)
+        elif r < 0.96: ops.append('init %d %d %s' % (j, rng.choice(ivs), rng.choice('op')))
+        else: ops.append('del %d' % j)
+    return ops
+
+
+def gen_exit_boundary(rng, L):
+    """exitLoop(L) for L around 2^31 / 2^32 ms (and 25..50 days): the loop must not leave one ms before the deadline, must leave on it;
+    the exit timer is the only pending record (its wait is clamped / converted for the engine: W lines); replaced by a second call"""
+    jump = lambda d: '%s %d' % (rng.choice(['adv', 'idle', 'idlex']), d)
+    ops = ['engine ' + rng.choice(['epoll', 'select']), 'xslot', 'new -', 'init 1 5 o', 'en 1', 'xl %d' % L, 'adv 5', 'idle 0']
+    if rng.random() < 0.5:
+        ops += [jump(L - 6), 'adv 0', jump(1), 'adv 3']            # leaves exactly at L
+    else:
+        d = rng.choice([1, 1000, B31 - 1, B31, B31 + 1])
+        d = min(d, L - 6)
+        ops += [jump(d), 'xl %d' % L, jump(L - 1), 'idle 0', jump(1), 'adv 3']     # replaced: the first one (due d ms earlier) must not stop the loop
+    ops += ['xl 1', 'adv 1', 'xl 0', 'adv 1']
+    return ops
+
+
+def gen_state_case(rng):
+    """lesson (g): follow-up inputs equal to / derived from the state the objects cache - the same interval and mode again while
+    enabled, enable() twice, re-enable exactly at the cached deadline, doEvery with an interval equal to the time already elapsed,
+    cancel of the token to be issued next / of the one just freed, removal of the heap front while it is due in this very pass"""
+    d = rng.choice([2, 3, 5, 7, 10])
+    k = rng.randrange(1, d)
+    m = rng.choice('op')
+    eng = 'engine ' + rng.choice(['epoll', 'select'])
+    kind = rng.randrange(8)
+    if kind == 0:      # re-initialize with the SAME interval and mode while enabled: disables; nothing at the old deadline; a fresh interval afterwards
+        return [eng, 'new -', 'init 0 %d %s' % (d, m), 'en 0', 'adv %d' % k, 'init 0 %d %s' % (d, m), 'adv %d' % (d - k), 'adv %d' % d,
+                'en 0', 'adv %d' % (d - 1), 'adv 1', 'init 0 %d %s' % (d, m), 'init 0 %d %s' % (d, m), 'en 0', 'en 0', 'adv %d' % d]
+    if kind == 1:      # enable() twice: the second call must not re-arm (fires at the ORIGINAL deadline), also from the timer's own callback
+        return [eng, 'new e0', 'init 0 %d %s' % (d, m), 'en 0', 'adv %d' % k, 'en 0', 'adv %d' % (d - k - 1) if d - k - 1 else 'adv 0', 'adv 1',
+                'adv %d' % (d - 1), 'adv 1', 'en 0', 'adv %d' % d]
+    if kind == 2:      # re-enable right at the cached deadline
+        return [eng, 'new -', 'init 0 %d %s' % (d, m), 'en 0', 'adv %d' % k, 'dis 0', 'adv %d' % (d - k), 'en 0', 'adv 0', 'adv %d' % (d - 1), 'adv 1',
+                'dis 0', 'en 0', 'adv %d' % d]
+    if kind == 3:      # TimerPool: doEvery / doAfter with an interval equal to the time already elapsed, re-created at the old next deadline
+        return [eng, 'adv %d' % d, 'pevery %d -' % d, 'pafter %d -' % d, 'adv %d' % (d - 1), 'adv 1', 'pcancel 0', 'adv %d' % d, 'pevery %d -' % d,
+                'adv %d' % (d - 1), 'adv 1', 'pcleanup', 'pevery %d -' % d, 'adv %d' % d]
+    if kind == 4:      # cancel of the token to be issued NEXT, of the one just freed by its own firing, of a cancelled one; then reuse
+        return [eng, 'pafter %d -' % d, 'pcancel 1', 'pafter %d c0,c1,c2' % d, 'pcancel 2', 'adv %d' % d, 'pcancel 0', 'pcancel 1',
+                'pafter %d c3' % k, 'pcancel 4', 'adv %d' % k, 'pcancel 3', 'pcleanup', 'pcancel 3', 'pafter 1 -', 'adv 1']
+    if kind == 5:      # the heap FRONT is removed while due in this very pass (disable / destroy / re-init from the callback that fires before it)
+        a = rng.choice(['d1,d2', 'x1,d2', 'i1:%d:p,d2' % d, 'd2,x1', 'd1,e1', 'i1:%d:o,e1' % d])
+        late = rng.choice([0, 1, d, 3 * d])
+        return [eng, 'new ' + a, 'new -', 'new d0', 'init 0 %d %s' % (d, m), 'init 1 %d p' % d, 'init 2 %d p' % d] +                rng.sample(['en 0', 'en 1', 'en 2'], 3) + ['adv %d' % (d + late), 'adv %d' % d, 'adv 1']
+    if kind == 6:      # the exit timer is the heap front and due in the pass in which a callback replaces / cancels it
+        w = rng.choice([d, d + 1])
+        return [eng, 'xslot', 'new q%d' % rng.choice([0, 1, d]), 'new -', 'init 1 %d %s' % (d, m), 'init 2 %d o' % d, 'xl %d' % w, 'en 2', 'en 1',
+                'adv %d' % (d + rng.choice([0, 1])), 'adv 1', 'adv %d' % d, 'adv 1']
+    # TimerPool: empty callbacks refused, destruction with pending timers, reuse after cleanup
+    return [eng, 'pnull a %d' % d, 'pnull e %d' % d, 'pnull t %d' % d, 'pevery %d -' % d, 'pafter %d -' % (d + 1), 'pafter %d a1[]' % k, 'adv %d' % k,
+            'pdestroy', 'adv %d' % (2 * d), 'pcancel 0', 'pcancel 1', 'pafter %d -' % d, 'pcleanup', 'pevery %d -' % d, 'adv %d' % d, 'pdestroy', 'adv %d' % d,
+            'pnull e 1', 'adv 3']
+
+
 def gen(rng, tier):
     n = 400 if tier == 'quick' else 6000
     yield ['new -', 'init 0 0 o', 'en 5', 'frob', 'new x0', 'init 0 5 q', 'adv x', 'new n[x1]', 'new n[', 'new e0,', 'new c0', 'new n[]]']   # malformed stream
@@ -268,6 +379,20 @@ def gen(rng, tier):
     # a pass 2^31 / 2^32 ms late with a short timer still pending: `int delay_ms` wraps, the due decision must not (fires once, no skip)
     yield ['new -', 'new -', 'init 0 5 o', 'init 1 2147483700 p', 'en 0', 'en 1', 'adv 2147483653', 'adv 0', 'idlex 4294967300', 'adv 0', 'dis 1']
     yield ['engine select', 'wnew', 'winit 0 5 o', 'wen 0', 'idlex 4294967301', 'idle 3', 'wen 0', 'idlex 2147483653', 'idlex 0']
+    # round 4: the loop's exit timer; state-derived follow-ups; TimerPool with empty callbacks / destroyed with pending timers
+    yield ['xslot', 'new -', 'init 1 5 p', 'en 1', 'xl 12', 'adv 5', 'adv 5', 'adv 1', 'adv 1', 'adv 5', 'xl 7', 'xl 20', 'adv 7', 'adv 13', 'adv 1', 'xl 0',
+           'adv 3', 'xlo 4', 'adv 3', 'adv 1', 'adv 9', 'xlo 0', 'adv 2']
+    yield ['engine select', 'xslot', 'new q3', 'new q0', 'new -', 'init 1 5 o', 'init 2 5 o', 'init 3 5 o', 'en 1', 'adv 5', 'adv 3', 'en 2', 'xl 5', 'adv 5', 'adv 5']
+    yield ['xslot', 'new -', 'init 1 4 p', 'xl 4', 'en 1', 'adv 4', 'adv 4', 'xl 1', 'idle 1', 'xl 2', 'idle 5', 'idle 1']     # exit deadline == timer deadline; idle waits bounded by the exit timer
+    yield ['xslot', 'en 0', 'new e0', 'new q', 'xl', 'xl -3', 'new q5,d0', 'new i0:5:o', 'new n[q1]', 'init 0 5 o', 'del 0', 'xl 5', 'adv 5']   # the slot is not addressable; malformed
+    yield ['new -', 'xslot', 'xl 5', 'new q5']                                                   # no slot: bad-op
+    yield ['pnull a 5', 'pnull e 5', 'pnull t 5', 'pafter 5 -', 'pevery 2 -', 'pdestroy', 'adv 10', 'pcancel 0', 'pafter 3 -', 'adv 3', 'pnull x 5', 'pnull a 0', 'pdestroy 1']
+    for L in BOUNDS[:-1]:
+        yield gen_exit_boundary(rng, L)
+    for _ in range(n // 5):
+        yield gen_exit_case(rng)
+    for _ in range(n // 4):
+        yield gen_state_case(rng)
     for L in BOUNDS:
         for kind in ('plain', 'pool', 'wide'):
             yield gen_boundary_case(rng, kind, L)
@@ -290,7 +415,7 @@ def nontrivial(ops, model_lines):
     tags = ' '.join(l for l in model_lines if l.startswith('B '))
     return 1 if any(t in tags for t in ('tie', 'catchup', 'cb-removed-other', 'cb-armed-other', 'passN', 'cb-doAfter', 'cb-doEvery',
                                         'cb-cancel', 'cb-cleanup', 'cb-new', 'idle-wait', 'idle-clamped', 'w-fire', 'iv~2^31', 'iv~2^32',
-                                        'iv-25..49d', 'iv>2^32')) else None
+                                        'iv-25..49d', 'iv>2^32', 'loop-exit', 'exit-fired', 'pool-destroy-pending', 'pool-null')) else None
 
 
 LEVEL_TEXT = ('Lean 4 theorems over a model of the loop timer core (addTimer/deleteTimer/handleExpiredTimers + TimerEventImpl) and of TimerPool: an '
@@ -300,12 +425,14 @@ LEVEL_TEXT = ('Lean 4 theorems over a model of the loop timer core (addTimer/del
               'doAfter exactly-once / doEvery n-th not before t+n*d / cancel / cleanup / stale tokens for the TimerPool; a width-faithful layer '
               '(UInt64 deadlines, Int64 intervals and waits, int delay_ms, epoll clamp, select timeval) on an explicit heap used through the C++ '
               'standard contract of push_heap/pop_heap/make_heap: deadlines exact for every 64-bit now/interval below the wrap, due decision at full '
-              'width, wait bound for both engines, deleteTimer removes exactly the addressed record, each primitive refines the abstract model; tied '
+              'width, wait bound for both engines, deleteTimer removes exactly the addressed record, each primitive refines the abstract model and every '
+              'whole execution of the width-faithful machine (TimerEventImpl + TimerPool + callback scripts, any conforming heap library) is an '
+              'execution of the abstract model with the same callback log (C02_wide_exec_simulates), so never-early / no-skip / order / once / '
+              'never-after-disable hold of the machine at width; the loop exit timer (exitLoop) as an object of the model; tied '
               'to the real loop on every run by a trace acceptor replaying the callbacks of the real epoll/select loop (virtual clocks) as model steps')
 LEVEL_NOTE = ('trusted: Lean kernel, hand-written model + trace-acceptor tie (coverage bounded by the generator, measured), that libstdc++ heap algorithms '
-              'meet the standard contract, clock and epoll_wait/select interposition, the cabinet contract (proved in C08); the wide layer refines the '
-              'abstract model primitive by primitive (no whole-execution simulation); sub-millisecond earliness is outside a millisecond clock; the '
-              'select engine hands milliseconds over as tv_usec (wakes early, goes round again, cannot oversleep: C02_wait_bound_select); exitLoop(wait) '
-              'exit timer not driven separately')
+              'meet the standard contract, clock and epoll_wait/select interposition, the cabinet contract (proved in C08); sub-millisecond earliness is '
+              'outside a millisecond clock; the select engine hands milliseconds over as tv_usec (wakes early, goes round again, cannot oversleep: '
+              'C02_wait_bound_select); the exit timer is modelled as one re-initialised object (the code creates a fresh TimerEventImpl per exitLoop call)')
 TECHNIQUE = 'Lean 4 invariant + measure proofs over all executions of a timer model + trace-acceptor correspondence with the real loop'
 DESIGN_REF = 'DESIGN.md §6 C02'
